@@ -171,15 +171,8 @@ theorem gen_tame (fs : FS) (rank : Nat → Nat) (hwf : WellFormed fs rank) (pf :
                       exact ⟨hfa, by
                         intro e' h; cases h
                         refine load_err_syntax fs sa n _ _ e g hg ?_ hl
-                        -- the class a run-time include resolves to
-                        by_cases hm : f.syn = .markup
-                        · left; rw [hcls, hm, hgs, hm]; rfl
-                        · have hic : inclCls t.cls p host = host := by
-                            rw [hcls]; cases hfs : f.syn <;> simp_all [inclCls]
-                          rw [hic]
-                          rcases hhost with hh | hh
-                          · left; rw [hh, hcls, hgs, childCls_text f.syn p hm]
-                          · right; exact hh⟩
+                        -- the class a run-time include resolves to: the writer's own (fix 37ed34d)
+                        left; rw [hcls, hgs]; rfl⟩
                   | ok pr =>
                       obtain ⟨st', t'⟩ := pr
                       obtain ⟨hf', _, hname, htf', _⟩ := load_faithful fs sa st' n _ _ t' hfa hl
